@@ -76,7 +76,7 @@ _JSON_LINE = re.compile(r'^"[\[{]')
 
 def run_tlc(module, cfg=None, tag=None, workers=None, simulate=None, depth=None,
             env=None, timeout=900, coverage=False, seed_=None, allow_violation=False,
-            extra=None, dfs=False, stream=False):
+            extra=None, dfs=False, stream=False, _retry=True):
     """Run TLC on spec/<module>.tla with spec/<cfg>.cfg.  Returns TLCResult.
 
     simulate: number of behaviours (-> -simulate num=N), depth: -depth D.
@@ -89,6 +89,10 @@ def run_tlc(module, cfg=None, tag=None, workers=None, simulate=None, depth=None,
     os.makedirs(meta, exist_ok=True)
     if workers is None:
         workers = NCPU
+    if simulate is not None:
+        # TLC's simulator with several workers occasionally dies with "Attempted to select nonexistent field" on a
+        # record that HAS the field (a race on lazily normalised record values): simulation is always single-threaded
+        workers = 1
     cmd = ["java", "-XX:+UseParallelGC", "-Xmx8g"]
     if dfs:
         cmd.append("-Dtlc2.tool.queue.IStateQueue=StateDeque")
@@ -167,6 +171,11 @@ def run_tlc(module, cfg=None, tag=None, workers=None, simulate=None, depth=None,
     if not stream:
         r.njson = len(r.json)
     bad = rc != 0 or "Error:" in r.stdout
+    if bad and not r.violated and _retry and "TLC threw an unexpected exception" in r.stdout:
+        # an internal TLC failure (not a property violation): one more attempt, single-threaded
+        return run_tlc(module, cfg=cfg, tag=tag, workers=1, simulate=simulate, depth=depth, env=env, timeout=timeout,
+                       coverage=coverage, seed_=seed_, allow_violation=allow_violation, extra=extra, dfs=dfs,
+                       stream=stream, _retry=False)
     if bad and not (allow_violation and r.violated):
         tail = "\n".join(r.stdout.splitlines()[-40:])
         raise MachineryError("TLC failed (rc=%s) on %s/%s:\n%s" % (rc, module, cfg, tail))
